@@ -91,6 +91,29 @@ def _format_dataset_eval(dataset: Dataset) -> str:
     return f"{{ {', '.join([__format_component(x) for x in dataset.components.values()])} \n\t\t}}"
 
 
+def _break_parentheses(expression: str) -> str:
+    """Line break after each "(" and before each ")", except inside string constants and quoted names."""
+    out = []
+    quote = None
+    previous = ""
+    for char in expression:
+        if quote is not None:
+            out.append(char)
+            if char == quote and not (quote == "'" and previous == "\\"):
+                quote = None
+        elif char in ('"', "'"):
+            quote = char
+            out.append(char)
+        elif char == "(":
+            out.append(f"({nl}{tab * 2}")
+        elif char == ")":
+            out.append(f"{nl}{tab * 2})")
+        else:
+            out.append(char)
+        previous = char
+    return "".join(out)
+
+
 def _format_reserved_word(value: str):
     if value in RESERVED_WORDS:
         return RESERVED_WORDS[value]
@@ -300,9 +323,7 @@ class ASTString(ASTTemplate):
             self.vtl_script += f"define operator {node.op}({signature}){nl}"
             self.vtl_script += f"\treturns {node.output_type.lower()} is{nl}"
             expression = self.visit(node.expression)
-            if "(" in expression:
-                expression = expression.replace("(", f"({nl}{tab * 2}")
-                expression = expression.replace(")", f"{nl}{tab * 2})")
+            expression = _break_parentheses(expression)
 
             self.vtl_script += f"{tab * 2}{expression}{nl}"
             self.vtl_script += f"end operator;{nl}"
